@@ -142,6 +142,14 @@ package maintenance
 //@     top: }
 //@   end
 
+// The mode handed to Update names the whole deployment: the replicated (cloud) bit
+// and the distributed (cluster) bit are independent - a database that is both gets
+// both, so its tables are created with the Replicated engines AND the _dist tables.
+//@ func upgradeDB [C18]
+//@   flag checks=-index,-assert
+//@   requires streamUsed == constmap("Int", false)
+//@   at Update$ cloud-bit-follows-the-configuration: ((mode & 2) != 0) <==> dbObject.Cloud
+//@   at Update$ distributed-bit-follows-the-configuration: ((mode & 4) != 0) <==> dbObject.ClusterName != ""
 // Initialisation applies each script file under its own stream key.
 //@ func Update [C18]
 //@   requires streamUsed == constmap("Int", false)
